@@ -65,7 +65,7 @@ def partitions(tier):
                           params=dict(hr=[0x12, 0x4C], size=512, prefix=prefix, rsv=[],
                                       oldlens=[0, 2], lens=[0, 1, 3], long=False)))
         for oldlens, lens, tag in (([3], [255, 300], "1to3"), ([255, 260], [3, 254], "3to1"),
-                                   ([255], [256, "cap"], "3to3")):
+                                   ([255, 300], [255, 256, "cap"], "3to3")):
             if tier == "quick" and nulls in (1, 2) and tag == "1to3":
                 # the known finding (length field across a block boundary) makes
                 # the reader follow a symbolic stale length: thousands of paths;
@@ -89,7 +89,7 @@ def partitions(tier):
                                       lens=[6, 9, "cap"] if tier == "quick" else list(range(4, 47)),
                                       long=True)))
         for oldlens, lens, tag in (([3], [255, 300], "1to3"), ([255, 260], [3, 254], "3to1"),
-                                   ([255], [256, "cap"], "3to3")):
+                                   ([255, 300], [255, 256, "cap"], "3to3")):
             parts.append(dict(name="t2:496:%s:%s" % (prefix or "-", tag), fn="t2",
                               params=dict(S=496, prefix=prefix, rsv=[], oldlens=oldlens,
                                           lens=lens, long=True)))
